@@ -149,6 +149,12 @@ def mk_bin(op, a, b, bits):
                 return C(x // y, bits)
             if op == "urem" and y:
                 return C(x % y, bits)
+            if op in ("sdiv", "srem") and y:
+                sx, sy = to_signed(x, bits), to_signed(y, bits)
+                q = abs(sx) // abs(sy)
+                if (sx < 0) != (sy < 0):
+                    q = -q
+                return C(q, bits) if op == "sdiv" else C(sx - q * sy, bits)
         except Exception:
             pass
     if bits == 1:
